@@ -335,6 +335,133 @@ pub(crate) fn ref_cluster_tail(
     4 + (n + 1) * w
 }
 
+// ---- O-hash: tap + additive stand-in for blake3 ---------------------------------------------------
+pub(crate) static mut H_LEN: u64 = 0;
+pub(crate) static mut H_SUM: u64 = 0;
+pub(crate) static mut H_WSUM: u64 = 0;
+
+pub(crate) fn stub_hasher_new() -> blake3::Hasher {
+    unsafe {
+        H_LEN = 0;
+        H_SUM = 0;
+        H_WSUM = 0;
+        std::mem::zeroed()
+    }
+}
+pub(crate) fn stub_update_reader<'a>(h: &'a mut blake3::Hasher, mut reader: impl std::io::Read) -> std::io::Result<&'a mut blake3::Hasher> {
+    let mut buf = [0u8; 4];
+    loop {
+        match reader.read(&mut buf) {
+            Ok(0) => break,
+            Ok(n) => {
+                let mut i = 0;
+                while i < n {
+                    unsafe {
+                        H_SUM = H_SUM.wrapping_add(buf[i] as u64);
+                        H_WSUM = H_WSUM.wrapping_add((buf[i] as u64).wrapping_mul(H_LEN + 1));
+                        H_LEN += 1;
+                    }
+                    i += 1;
+                }
+            }
+            Err(e) => return Err(e),
+        }
+    }
+    Ok(h)
+}
+pub(crate) fn stub_finalize(_h: &blake3::Hasher) -> blake3::Hash {
+    let mut out = [0u8; 32];
+    unsafe {
+        put_le(&mut out, 0, H_LEN, 8);
+        put_le(&mut out, 8, H_SUM, 8);
+        put_le(&mut out, 16, H_WSUM, 8);
+    }
+    blake3::Hash::from(out)
+}
+
+pub(crate) fn stub_ct_eq_32(a: &[u8; 32], b: &[u8; 32]) -> bool {
+    let mut i = 0;
+    let mut same = true;
+    while i < 32 {
+        if a[i] != b[i] { same = false; }
+        i += 1;
+    }
+    same
+}
+
+macro_rules! hharness {
+    ($(#[$m:meta])* fn $name:ident() $body:block) => {
+        crate::verif_common::vharness! {
+            #[kani::stub(blake3::Hasher::new, crate::verif_common::stub_hasher_new)]
+            #[kani::stub(blake3::Hasher::update_reader, crate::verif_common::stub_update_reader)]
+            #[kani::stub(blake3::Hasher::finalize, crate::verif_common::stub_finalize)]
+            #[kani::stub(constant_time_eq::constant_time_eq_32, crate::verif_common::stub_ct_eq_32)]
+            $(#[$m])*
+            fn $name() $body
+        }
+    };
+}
+
+pub(crate) use hharness;
+
+/// The stand-in digest of `data` (what O-hash produces for a stream with these bytes).
+pub(crate) fn ref_digest(data: &[u8]) -> [u8; 32] {
+    let mut sum = 0u64;
+    let mut wsum = 0u64;
+    let mut i = 0;
+    while i < data.len() {
+        sum = sum.wrapping_add(data[i] as u64);
+        wsum = wsum.wrapping_add((data[i] as u64).wrapping_mul(i as u64 + 1));
+        i += 1;
+    }
+    let mut out = [0u8; 32];
+    put_le(&mut out, 0, data.len() as u64, 8);
+    put_le(&mut out, 8, sum, 8);
+    put_le(&mut out, 16, wsum, 8);
+    out
+}
+
+/// Range obligation shared by the three pack kinds: `mk` builds the pack (by struct literal, in a
+/// child module of the pack's own module) over a 64 byte image whose first `cip` bytes are the
+/// checked body, followed by a blake3 check block holding the stand-in digest of exactly
+/// those bytes.
+pub(crate) fn check_range<P: crate::common::Pack>(cip: usize, mk: fn(Reader, u64) -> P) {
+    let mut img = [0u8; 64];
+    fill_any(&mut img[..cip]);
+    img[cip] = 1;
+    let d = ref_digest(&img[..cip]);
+    let mut i = 0;
+    while i < 32 {
+        img[cip + 1 + i] = d[i];
+        i += 1;
+    }
+    native_set_crc(&mut img, cip, 33, true);
+    // optionally alter one byte of the body or of the stored digest
+    let alter: bool = kani::any();
+    let pos: usize = kani::any();
+    let mask: u8 = kani::any();
+    kani::assume(mask != 0 && pos < cip + 33 && pos != cip);
+    if alter {
+        img[pos] ^= mask;
+        native_set_crc(&mut img, cip, 33, true);
+    }
+    let pack = mk(Reader::from(img), cip as u64);
+    match pack.check() {
+        Ok(v) => {
+            if is_symbolic() {
+                assert!(unsafe { H_LEN } == cip as u64, "VERIF: the integrity check does not cover exactly [0, check_info_pos)");
+            }
+            assert!(v == !alter, "VERIF: integrity check verdict is wrong (pristine pack refused or altered pack accepted)");
+        }
+        Err(e) => { forget(e); assert!(alter, "VERIF: integrity check of a pristine pack failed"); }
+    }
+    kani::cover!(alter && pos == 0, "first body byte altered");
+    kani::cover!(alter && pos == cip - 1, "last body byte altered");
+    kani::cover!(alter && pos > cip, "stored digest altered");
+    kani::cover!(!alter, "pristine");
+    std::mem::forget(pack);
+}
+
 /// Forget an error value instead of dropping it (io::Error drop glue is expensive to encode).
 pub(crate) fn forget<T>(v: T) {
     std::mem::forget(v)
